@@ -45,6 +45,21 @@ def ast_eval(e: dict, env: dict) -> float:
     raise ValueError(f"unknown node {k}")
 
 
+def ast_fold(e: dict, rules: dict) -> dict:
+    """Replace every subtree equal to a rule's expression by the symbol the rule defines (the model reads the rule-defined
+    parameter; the specification writes the rate with the rule substituted)."""
+    for name, tree in rules.items():
+        if e == tree:
+            return {"k": "sym", "name": name}
+    if e["k"] in ("num", "sym"):
+        return e
+    out = dict(e)
+    out["a"] = ast_fold(e["a"], rules)
+    if "b" in e:
+        out["b"] = ast_fold(e["b"], rules)
+    return out
+
+
 def ast_syms(e: dict, acc: list) -> list:
     if e["k"] == "sym":
         if e["name"] not in acc:
@@ -77,6 +92,7 @@ def norm_point(p: dict) -> dict:
     d["ss"] = fn_to_dict(d["ss"])
     d["init"] = fn_to_dict(d.get("init", {}))
     q["desc"] = d
+    q["pinit"] = fn_to_dict(p.get("pinit", {}))
     q["consts"] = sorted(p.get("consts", []))
     q["pools"] = sorted(p.get("pools", []))
     for key in ("kdeg", "xdeg"):
@@ -127,9 +143,17 @@ def build(pt: dict, inits: dict | None = None, scaled: bool = False):
             m.add_variable(v, InitialAssignment(fn=RateFn(f"init_{v}", tree, args), args=args))
         else:
             m.add_variable(v, float((inits or env)[v]))
+    rules = pt.get("pinit") or {}
+    if rules:
+        from mxlpy import InitialAssignment
+
+        for name, tree in rules.items():      # a parameter declared by a rule of other parameters
+            args = ast_syms(tree, [])
+            m.add_parameter(name, InitialAssignment(fn=RateFn(f"rule_{name}", tree, args), args=args))
     for r in d["rxns"]:
-        args = ast_syms(r["rate"], [])
-        m.add_reaction(r["name"], RateFn(r["name"], r["rate"], args), args=args,
+        rate = ast_fold(r["rate"], rules) if rules else r["rate"]
+        args = ast_syms(rate, [])
+        m.add_reaction(r["name"], RateFn(r["name"], rate, args), args=args,
                        stoichiometry={k: float(v) for k, v in r["st"].items()})
     return m, env
 
@@ -153,10 +177,13 @@ def content_of(model) -> dict:
            "initial": {k: float(v) for k, v in model.get_initial_conditions().items()},
            "stored_parameters": {k: _stored(p.value) for k, p in model.get_raw_parameters().items()},
            "stored_initial": {k: _stored(v.initial_value) for k, v in model.get_raw_variables().items()}}
-    if any(s.startswith("rule:") for s in out["stored_initial"].values()):
+    rules = [s for s in list(out["stored_initial"].values()) + list(out["stored_parameters"].values()) if s.startswith("rule:")]
+    if rules:
         probe = copy.deepcopy(model)
-        probe.update_parameters({k: 2.0 * v for k, v in out["parameters"].items()})
+        probe.update_parameters({k: 2.0 * float.fromhex(s) for k, s in out["stored_parameters"].items()
+                                 if not s.startswith("rule:")})
         out["initial_after_doubling_every_parameter"] = {k: float(v) for k, v in probe.get_initial_conditions().items()}
+        out["fluxes_after_doubling_every_parameter"] = {k: float(v) for k, v in probe.get_fluxes().items()}
     return out
 
 
